@@ -48,7 +48,7 @@ WRITER_API = ('__init__', 'new_change', 'new_file', 'write_preamble',
               'write_meta', 'write_diff')
 
 
-def make_engine(stub_writer=False):
+def make_engine(stub_writer=False, stats_stubs=False):
     from contracts import writer as W, text_utils as T
     eng = verify.Engine()
     eng.inline_all_repo = True
@@ -66,6 +66,28 @@ def make_engine(stub_writer=False):
             eng.add(verify.Contract(W.QN + m, params={},
                                     raises={Exception: None}))
     scenario.install(eng)
+    if stats_stubs:
+        register_stats_stubs(eng)
+        import z3 as _z3
+        from pyvc.values import VBox as _VBox, Val as _Val
+
+        def _choice(name, alts):
+            def f(it, a, k):
+                v = it.ctx.fresh(name, _Val)
+                it.ctx.assume(_z3.Or([v == x for x in alts]))
+                return _VBox(v)
+            return VFunc(f, name)
+        S_ = lambda x: _Val.StrV(_z3.StringVal(x))
+        eng.spec_funcs['SYM_TYPE'] = _choice(
+            'SYM_TYPE', [_Val.NoneV, S_('text'), S_('binary')])
+        eng.spec_funcs['SYM_LE'] = _choice(
+            'SYM_LE', [_Val.NoneV, S_('unix'), S_('dos')])
+
+        def f_enc(it, a, k):
+            v = it.ctx.fresh('SYM_ENC', _Val)
+            it.ctx.assume(_z3.Or(v == _Val.NoneV, _Val.is_StrV(v)))
+            return _VBox(v)
+        eng.spec_funcs['SYM_ENC'] = VFunc(f_enc, 'SYM_ENC')
     eng.spec_funcs['box_is'] = VFunc(
         lambda it, a, k: VBool(box(a[0]) == box(a[1])), 'box_is')
 
@@ -297,3 +319,279 @@ def _run_one(sc):
     except Exception:
         return {'name': name, 'undecided': [], 'paths': 0, 'exit_kinds': {},
                 'obligations': [], 'error': traceback.format_exc()[-1500:]}
+
+
+# --- C13 -----------------------------------------------------------------
+# The text utilities and the hunk parser seen from generate_stats: pure
+# functions of their arguments (uninterpreted), any exception possible.
+# What the functions compute is the business of C14 / C16 / C02; here the
+# obligations are (1) which arguments they are called with, (2) what is done
+# with their results.
+def _stats_ufs():
+    import z3
+    from pyvc.values import Val, SeqString
+    St = z3.StringSort()
+    return dict(
+        NLFor=z3.Function('C13_NLFor', Val, Val, St),
+        GuessLE=z3.Function('C13_GuessLE', St, Val, St),
+        GuessNL=z3.Function('C13_GuessNL', St, Val, St),
+        SplitL=z3.Function('C13_SplitLines', St, St, SeqString),
+        TotIns=z3.Function('C13_TotalInserts', SeqString, z3.IntSort()),
+        TotDel=z3.Function('C13_TotalDeletes', SeqString, z3.IntSort()),
+        Fail=z3.Function('C13_HunkParserRaises', SeqString, z3.BoolSort()),
+        NLFails=z3.Function('C13_NLForRaises', Val, Val, z3.BoolSort()),
+        GuessFails=z3.Function('C13_GuessRaises', St, Val, z3.BoolSort()),
+        SplitFails=z3.Function('C13_SplitRaises', St, St, z3.BoolSort()))
+
+
+def register_stats_stubs(eng):
+    import z3
+    from pyvc.values import (VStr, VInt, VTuple, VNone, VBool, VExc,
+                             SeqCell, Val)
+    from pyvc.symex import PyRaise, truth
+    U = _stats_ufs()
+
+    def boxed(v):
+        return box(v) if v is not None else Val.NoneV
+
+    def may_raise(it, cond):
+        # deterministic: raises exactly when the (uninterpreted) predicate
+        # of the arguments holds
+        if it.ctx.branch(cond):
+            raise PyRaise(VExc(Exception, [], {}))
+
+    def nl_effect(it, b):
+        may_raise(it, U['NLFails'](boxed(b['line_endings']),
+                                   boxed(b.get('encoding'))))
+        return VStr(U['NLFor'](boxed(b['line_endings']),
+                               boxed(b.get('encoding'))), True)
+
+    def guess_effect(it, b):
+        t = b['text']
+        if not isinstance(t, VStr):
+            raise Unsupported('guess_line_endings on %r' % (t,))
+        e = boxed(b.get('encoding'))
+        may_raise(it, U['GuessFails'](t.e, e))
+        return VTuple([VStr(U['GuessLE'](t.e, e), False),
+                       VStr(U['GuessNL'](t.e, e), True)])
+
+    def split_effect(it, b):
+        d, nl = b['data'], b['newline']
+        if not (isinstance(d, VStr) and isinstance(nl, VStr)):
+            raise Unsupported('split_lines arguments')
+        ke = b.get('keep_ends')
+        it.ctx.oblige('split_lines.keep_ends_off',
+                      z3.Not(truth(it.ctx, ke)) if ke is not None
+                      else z3.BoolVal(True), kind='call-pre')
+        may_raise(it, U['SplitFails'](d.e, nl.e))
+        return it.ctx.alloc(SeqCell(U['SplitL'](d.e, nl.e), 'bytes'))
+
+    def hunks_effect(it, b):
+        ctx = it.ctx
+        c = ctx.cell(b['lines'])
+        if not isinstance(c, SeqCell):
+            raise Unsupported('hunk parser argument')
+        ig = b.get('ignore_garbage')
+        ctx.oblige('hunk_parser.ignore_garbage_on',
+                   truth(ctx, ig) if ig is not None else z3.BoolVal(False),
+                   kind='call-pre')
+        if ctx.branch(U['Fail'](c.e)):
+            raise PyRaise(VExc(Exception, [], {}))
+        ctx.assume(U['TotIns'](c.e) >= 0)
+        ctx.assume(U['TotDel'](c.e) >= 0)
+        d = DictCell()
+        d.items['total_inserts'] = VInt(U['TotIns'](c.e))
+        d.items['total_deletes'] = VInt(U['TotDel'](c.e))
+        d.items['hunks'] = VNone
+        return ctx.alloc(d)
+    T = 'pydiffx.utils.text.'
+    eng.add(verify.Contract(T + 'get_newline_for_type', params={},
+                            call_effect=nl_effect))
+    eng.add(verify.Contract(T + 'guess_line_endings', params={},
+                            call_effect=guess_effect))
+    eng.add(verify.Contract(T + 'split_lines', params={},
+                            call_effect=split_effect))
+    eng.add(verify.Contract(
+        'pydiffx.utils.unified_diffs.get_unified_diff_hunks', params={},
+        call_effect=hunks_effect))
+
+    # ---- the specification of generate_stats over snapshots -------------
+    def val_of(s):
+        assert s[0] == 'val', s
+        return s[1]
+
+    def spec_file(ctx, fobj):
+        """Expected snapshot of one file section after generate_stats."""
+        attrs = fobj[3]
+        dsec = attrs['diff_section'][3]
+        msec = attrs['meta_section'][3]
+        diff = val_of(dsec['_content'])
+        opts = dsec['options'][1]
+        le = val_of(opts['line_endings']) if 'line_endings' in opts \
+            else Val.NoneV
+        enc = val_of(opts['encoding']) if 'encoding' in opts else Val.NoneV
+        typ = val_of(opts['type']) if 'type' in opts else Val.NoneV
+        from pyvc.values import VBox
+        has_diff = truth(ctx, VBox(diff))
+        if not ctx.branch(has_diff):
+            return fobj, None
+        if ctx.branch(typ == Val.StrV(z3.StringVal('binary'))):
+            return fobj, None
+        ctx.assume(Val.is_BytesV(diff))
+        data = Val.bval(diff)
+        if ctx.branch(truth(ctx, VBox(le))):
+            nl = U['NLFor'](le, enc)
+        else:
+            nl = U['GuessNL'](data, enc)
+        if ctx.branch(U['SplitFails'](data, nl)):
+            return fobj, None
+        lines = U['SplitL'](data, nl)
+        if ctx.branch(U['Fail'](lines)):
+            return fobj, None
+        ins, dele = U['TotIns'](lines), U['TotDel'](lines)
+        meta = msec['_content']
+        assert meta[0] == 'dict', meta
+        md = dict(meta[1])
+        st = dict(md['stats'][1]) if 'stats' in md else {}
+        st['insertions'] = ('val', Val.IntV(ins))
+        st['deletions'] = ('val', Val.IntV(dele))
+        st['lines changed'] = ('val', Val.IntV(dele + ins))
+        md['stats'] = ('dict', st, md['stats'][2] if 'stats' in md else None)
+        return replace_meta(fobj, md), st
+
+    def replace_meta(obj, md):
+        attrs = dict(obj[3])
+        ms = attrs['meta_section']
+        mattrs = dict(ms[3])
+        mattrs['_content'] = ('dict', md, mattrs['_content'][2])
+        attrs['meta_section'] = ms[:3] + (mattrs,)
+        # the subsections list holds the same section objects by ('ref', n)
+        return obj[:3] + (attrs,)
+
+    def get_int(st, key):
+        if st is None or key not in st:
+            return z3.IntVal(0)
+        return Val.ival(val_of(st[key]))
+
+    def meta_stats(obj):
+        md = obj[3]['meta_section'][3]['_content'][1]
+        return dict(md['stats'][1]) if 'stats' in md else None
+
+    def merge(obj, new):
+        md = dict(obj[3]['meta_section'][3]['_content'][1])
+        st = dict(md['stats'][1]) if 'stats' in md else {}
+        for k, v in new.items():
+            st[k] = ('val', Val.IntV(v))
+        md['stats'] = ('dict', st, md['stats'][2] if 'stats' in md else None)
+        return replace_meta(obj, md)
+
+    KEYS = ('insertions', 'deletions', 'lines changed')
+
+    def spec_change(ctx, cobj):
+        attrs = dict(cobj[3])
+        files = []
+        tot = {k: z3.IntVal(0) for k in KEYS}
+        for f in attrs['files'][1]:
+            nf, _ = spec_file(ctx, f)
+            files.append(nf)
+            st = meta_stats(nf)
+            for k in KEYS:
+                tot[k] = tot[k] + get_int(st, k)
+        tot['files'] = z3.IntVal(len(files))
+        attrs['files'] = ('list', files, attrs['files'][2])
+        return merge(cobj[:3] + (attrs,), tot), tot
+
+    def spec_tree(ctx, dobj):
+        attrs = dict(dobj[3])
+        changes = []
+        tot = {k: z3.IntVal(0) for k in KEYS + ('files',)}
+        for c in attrs['changes'][1]:
+            nc, ctot = spec_change(ctx, c)
+            changes.append(nc)
+            for k in tot:
+                tot[k] = tot[k] + ctot[k]
+        tot['changes'] = z3.IntVal(len(changes))
+        attrs['changes'] = ('list', changes, attrs['changes'][2])
+        return merge(dobj[:3] + (attrs,), tot)
+
+    def forking(fn):
+        # the specification forks on its own case distinctions (analysed /
+        # not analysed); forks are ordinary path decisions
+        def g(it, args, kw):
+            saved = it.ctx.spec_mode
+            it.ctx.spec_mode = 0
+            try:
+                return fn(it, args, kw)
+            finally:
+                it.ctx.spec_mode = saved
+        return g
+
+    def f_SPEC_STATS(it, args, kw):
+        s = args[0].s
+        assert len(s) == 1
+        return scenario.VSnap([spec_tree(it.ctx, s[0])])
+    eng.spec_funcs['SPEC_STATS'] = VFunc(forking(f_SPEC_STATS), 'SPEC_STATS')
+
+    def f_SPEC_FILE_STATS(it, args, kw):
+        return scenario.VSnap([spec_file(it.ctx, args[0].s[0])[0]])
+    eng.spec_funcs['SPEC_FILE_STATS'] = VFunc(
+        forking(f_SPEC_FILE_STATS), 'SPEC_FILE_STATS')
+    return U
+
+
+def stats_tree(shape, prestats):
+    """shape: files per change; prestats: set of names ('d', 'c0', 'c0f1')
+    that start with a stats dictionary holding a custom key."""
+    def meta(name, key):
+        if name in prestats:
+            return ("{'%s': SYM_BOX(), 'stats': {'custom': SYM_BOX(), "
+                    "'insertions': SYM_INT(), 'deletions': SYM_INT(), "
+                    "'lines changed': SYM_INT(), 'files': SYM_INT()}}" % key)
+        return "{'%s': SYM_BOX()}" % key
+    lines = ['d = DiffX()', 'd.meta = ' + meta('d', 'k')]
+    for ci, nfiles in enumerate(shape):
+        lines += ['c%d = d.add_change()' % ci,
+                  'c%d.meta = %s' % (ci, meta('c%d' % ci, 'id'))]
+        for fi in range(nfiles):
+            f = 'c%df%d' % (ci, fi)
+            lines += ['%s = c%d.add_file()' % (f, ci),
+                      '%s.meta = %s' % (f, meta(f, 'path')),
+                      '%s.diff = SYM_BYTES()' % f,
+                      "%s.diff_section.options['type'] = SYM_TYPE()" % f,
+                      "%s.diff_section.options['line_endings'] = SYM_LE()"
+                      % f,
+                      "%s.diff_section.options['encoding'] = SYM_ENC()" % f]
+    return '\n'.join(lines) + '\n'
+
+
+def c13_scenarios(tier):
+    out = []
+    opt = {'stats_stubs': True}
+    shapes = [((1,), ()), ((1,), ('d', 'c0', 'c0f0')), ((2,), ('c0f1',)),
+              ((1, 1), ('c1',)), ((0,), ()), ((), ('d',))]
+    if tier != 'quick':
+        shapes += [((2, 1), ('d', 'c0f0', 'c1f0')), ((3,), ('c0f1',))]
+    for shape, pre in shapes:
+        name = 'c13.tree.%s.pre_%s' % ('x'.join(map(str, shape)) or 'empty',
+                                       '_'.join(pre) or 'none')
+        out.append((name, stats_tree(shape, pre) + '''
+before = SNAP(d)
+d.generate_stats()
+after = SNAP(d)
+''', [('stats_exact_additive_nondestructive',
+       'SAME(SPEC_STATS(before), after)')], (Exception,), opt))
+    out.append(('c13.idempotent', stats_tree((2,), ('c0f0',)) + '''
+d.generate_stats()
+once = SNAP(d)
+d.generate_stats()
+twice = SNAP(d)
+''', [('twice_equals_once', 'SAME(once, twice)')], (Exception,), opt))
+    out.append(('c13.file_level', stats_tree((1,), ('c0f0',)) + '''
+before = SNAP(c0f0)
+others = SNAP(d.meta_section, c0.meta_section)
+c0f0.generate_stats()
+after = SNAP(c0f0)
+''', [('file_stats', 'SAME(SPEC_FILE_STATS(before), after)'),
+      ('nothing_else', 'SAME(others, SNAP(d.meta_section, '
+                       'c0.meta_section))')], (Exception,), opt))
+    return out
